@@ -24,6 +24,7 @@ variables unless TARGETS gives one) — a loop that runs out of fuel returns its
 (which are about the hand-written model, itself tied to the running code by correspondence) fail in that case.
 """
 import ast
+import copy
 import os
 import textwrap
 
@@ -34,7 +35,7 @@ class Unsupported(Exception):
     pass
 
 
-INT, BOOL, BYTES, NONE = 'int', 'bool', 'bytes', 'none'
+INT, BOOL, BYTES, NONE, STR = 'int', 'bool', 'bytes', 'none', 'str'
 
 
 def lean_type(t, structs):
@@ -46,6 +47,8 @@ def lean_type(t, structs):
         return 'List Int'
     if t == NONE:
         return 'Unit'
+    if t == STR:
+        return 'List Char'
     if isinstance(t, tuple) and t[0] == 'list':
         return 'List (%s)' % lean_type(t[1], structs)
     if isinstance(t, tuple) and t[0] == 'tuple':
@@ -57,7 +60,7 @@ def lean_type(t, structs):
 
 def parse_type(s):
     s = s.strip()
-    if s in (INT, BOOL, BYTES, NONE):
+    if s in (INT, BOOL, BYTES, NONE, STR):
         return s
     if s.startswith('list[') and s.endswith(']'):
         inner = parse_type(s[5:-1])
@@ -67,6 +70,19 @@ def parse_type(s):
     if s.startswith('struct:'):
         return ('struct', s[7:])
     raise Unsupported('type syntax %r' % s)
+
+
+def hex_sentinel_arg(e):
+    """X if e is the idiom `hex(X)[4:].rstrip('L')` (hex digits of X without the two leading sentinel digits)"""
+    if isinstance(e, ast.Call) and isinstance(e.func, ast.Attribute) and e.func.attr == 'rstrip' and len(e.args) == 1 \
+            and isinstance(e.args[0], ast.Constant) and e.args[0].value == 'L':
+        sub = e.func.value
+        if isinstance(sub, ast.Subscript) and isinstance(sub.slice, ast.Slice) and sub.slice.upper is None and sub.slice.step is None \
+                and isinstance(sub.slice.lower, ast.Constant) and sub.slice.lower.value == 4:
+            h = sub.value
+            if isinstance(h, ast.Call) and isinstance(h.func, ast.Name) and h.func.id == 'hex' and len(h.args) == 1:
+                return h.args[0]
+    return None
 
 
 def assigned_names(stmts):
@@ -224,7 +240,14 @@ class Translator:
                     fn.partial = True
                 if isinstance(n, ast.Subscript) and not isinstance(n.slice, ast.Slice):
                     fn.partial = True
-                if isinstance(n, ast.Call) and isinstance(n.func, ast.Attribute) and n.func.attr == 'pop':
+                if isinstance(n, ast.Call) and isinstance(n.func, ast.Attribute) and n.func.attr in ('pop', 'unhexlify'):
+                    fn.partial = True
+                if isinstance(n, ast.Call) and isinstance(n.func, ast.Name) and n.func.id == 'int' and len(n.args) == 2 \
+                        and isinstance(n.args[1], ast.Constant) and n.args[1].value == 2:
+                    fn.partial = True
+                if isinstance(n, ast.Try):
+                    fn.partial = True
+                if isinstance(n, ast.Call) and isinstance(n.func, ast.Name) and n.func.id == 'int' and len(n.args) == 1:
                     fn.partial = True
             if fn.cls:
                 names = assigned_names(fn.node.body)
@@ -295,6 +318,8 @@ class Translator:
                 return '([%s] : List Int)' % ', '.join(str(b) for b in v), BYTES
             if v is None:
                 return '()', NONE
+            if isinstance(v, str) and all(32 <= ord(c) < 127 and c not in "'\\" for c in v):
+                return '([%s] : List Char)' % ', '.join("'%s'" % c for c in v), STR
             raise Unsupported('constant %r' % (v,))
         if isinstance(e, ast.Name):
             if e.id not in env:
@@ -325,9 +350,14 @@ class Translator:
                          ast.RShift: '(Py.shr %s %s)'}
                 if type(op) not in table:
                     raise Unsupported('int operator %s' % ast.dump(op))
+                if isinstance(op, (ast.LShift, ast.RShift)) and P and not (isinstance(e.right, ast.Constant) and e.right.value >= 0):
+                    # a shift count that comes from data: Python raises ValueError when it is negative
+                    return '(← Py.%sE %s %s)' % ('shl' if isinstance(op, ast.LShift) else 'shr', a, b), INT
                 return table[type(op)] % (a, b), INT
-            if isinstance(e.op, ast.Add) and ta == tb and (ta == BYTES or (isinstance(ta, tuple) and ta[0] == 'list')):
+            if isinstance(e.op, ast.Add) and ta == tb and (ta in (BYTES, STR) or (isinstance(ta, tuple) and ta[0] == 'list')):
                 return '(%s ++ %s)' % (a, b), ta
+            if isinstance(e.op, ast.Mult) and ta == STR and tb == INT:
+                return '(Py.strRepeat %s %s)' % (a, b), STR
             raise Unsupported('binary operator %s on %r, %r' % (ast.dump(e.op), ta, tb))
         if isinstance(e, ast.BoolOp):
             parts = [self.as_bool(*self.expr(fn, v, env)) for v in e.values]
@@ -354,7 +384,7 @@ class Translator:
                     left, tl = '(Py.boolToInt %s)' % left, INT
                 if tr == BOOL and tl == INT:
                     right, tr = '(Py.boolToInt %s)' % right, INT
-                if tl != tr or tl not in (INT, BOOL, BYTES):
+                if tl != tr or tl not in (INT, BOOL, BYTES, STR):
                     raise Unsupported('comparison of %r with %r' % (tl, tr))
                 sym = {ast.Lt: '<', ast.LtE: '≤', ast.Gt: '>', ast.GtE: '≥', ast.Eq: '=', ast.NotEq: '≠'}.get(type(op))
                 if sym is None or (tl != INT and sym not in ('=', '≠')):
@@ -382,9 +412,15 @@ class Translator:
             return '(%s)' % ', '.join(a for a, _ in items), ('tuple',) + tuple(t for _, t in items)
         if isinstance(e, ast.Subscript):
             base, tb = self.expr(fn, e.value, env)
-            if not (tb == BYTES or (isinstance(tb, tuple) and tb[0] == 'list')):
+            if not (tb in (BYTES, STR) or (isinstance(tb, tuple) and tb[0] == 'list')):
                 raise Unsupported('subscript of %r' % (tb,))
-            et = INT if tb == BYTES else tb[1]
+            if tb == STR and not isinstance(e.slice, ast.Slice):
+                i, ti = self.expr(fn, e.slice, env)
+                if ti != INT:
+                    raise Unsupported('index of type %r' % (ti,))
+                assert P
+                return '(← Py.strIdx %s %s)' % (base, i), STR
+            et = INT if tb == BYTES else (None if tb == STR else tb[1])
             if isinstance(e.slice, ast.Slice):
                 sl = e.slice
                 if sl.step is not None:
@@ -416,7 +452,7 @@ class Translator:
             return a
         if t == INT:
             return '(Py.truthyInt %s)' % a
-        if t == BYTES or (isinstance(t, tuple) and t[0] == 'list'):
+        if t in (BYTES, STR) or (isinstance(t, tuple) and t[0] == 'list'):
             return '(Py.truthyList %s)' % a
         raise Unsupported('truthiness of %r' % (t,))
 
@@ -441,6 +477,20 @@ class Translator:
                 if t != BYTES:
                     raise Unsupported('hexlify of %r' % (t,))
                 return '(Py.bytesToInt %s)' % a, INT
+            if f.id == 'int' and len(args) == 2 and isinstance(args[1], ast.Constant) and args[1].value == 2:
+                a, t = self.expr(fn, args[0], env)
+                if t != STR:
+                    raise Unsupported('int(%r, 2)' % (t,))
+                assert fn.partial
+                return '(← Py.intOfBin %s)' % a, INT
+            if f.id == 'int' and len(args) == 1:
+                a, t = self.expr(fn, args[0], env)
+                if t == INT:
+                    return a, INT
+                if t != STR:
+                    raise Unsupported('int(%r)' % (t,))
+                assert fn.partial
+                return '(← Py.intOfDec %s)' % a, INT
             if f.id == 'divmod' and len(args) == 2:
                 a, _ = self.expr(fn, args[0], env)
                 b, _ = self.expr(fn, args[1], env)
@@ -451,6 +501,15 @@ class Translator:
                 return '(%s %s %s)' % (f.id, a, b), INT
             if f.id == 'abs' and len(args) == 1:
                 return '((%s).natAbs : Int)' % self.expr(fn, args[0], env)[0], INT
+        if isinstance(f, ast.Attribute) and f.attr == 'unhexlify' and len(args) == 1:
+            x = hex_sentinel_arg(args[0])
+            if x is None:
+                raise Unsupported('unhexlify of something else than hex(X)[4:].rstrip(\'L\')')
+            a, t = self.expr(fn, x, env)
+            if t != INT:
+                raise Unsupported('hex of %r' % (t,))
+            assert fn.partial
+            return '(← Py.unhexAfter4 %s)' % a, BYTES
         if isinstance(f, ast.Attribute) and f.attr == 'bit_length' and not args:
             a, t = self.expr(fn, f.value, env)
             if t != INT:
@@ -487,6 +546,74 @@ class Translator:
             v = '()' if val is None else val
         return ('pure %s' % v) if fn.partial else v
 
+    def mods(self, fn, stmts):
+        """names a statement list may rebind, including the receivers of state-changing method calls anywhere inside"""
+        out = assigned_names(stmts)
+        for st in stmts:
+            for n in ast.walk(st):
+                if self.is_mutating_call(fn, n):
+                    recv = n.func.value.id
+                    if recv not in out:
+                        out.append(recv)
+        return out
+
+    def generic_fuel(self, params, env):
+        """1 + magnitudes of the live integers + lengths of the live lists (also those inside state records)"""
+        terms = []
+        for p in params:
+            t = env[p]
+            if t == INT:
+                terms.append('Py.fuelOfInt %s' % p)
+            elif t in (BYTES, STR) or (isinstance(t, tuple) and t[0] == 'list'):
+                terms.append('Py.fuelOfList %s' % p)
+            elif isinstance(t, tuple) and t[0] == 'struct':
+                for f, ft in self.structs[t[1]]['fields']:
+                    if ft == INT:
+                        terms.append('Py.fuelOfInt %s.%s' % (p, f))
+                    elif ft in (BYTES, STR) or (isinstance(ft, tuple) and ft[0] == 'list'):
+                        terms.append('Py.fuelOfList %s.%s' % (p, f))
+        return ' + '.join(['1'] + terms)
+
+    def is_mutating_call(self, fn, e):
+        if isinstance(e, ast.Call):
+            k = self.resolve_call(fn, e)
+            return bool(k and self.fns[k].cls and self.fns[k].mutates)
+        return False
+
+    def has_mutating_call(self, fn, e):
+        return any(self.is_mutating_call(fn, n) for n in ast.walk(e))
+
+    def hoist(self, fn, e, env, lines, pad, top=False):
+        """Replace every call of a state-changing method inside expression `e` by a fresh temporary that is bound (together
+        with the new receiver state) BEFORE the statement, in Python's left-to-right evaluation order.  Calls under
+        `and` / `or` / conditional expressions (evaluated conditionally) are not supported."""
+        if not self.has_mutating_call(fn, e):
+            return e
+        if isinstance(e, (ast.BoolOp, ast.IfExp, ast.Lambda, ast.ListComp, ast.GeneratorExp)):
+            raise Unsupported('%s: state-changing call under a conditionally evaluated expression' % fn.key)
+        if isinstance(e, ast.Compare) and len(e.ops) > 1:
+            raise Unsupported('%s: state-changing call in a comparison chain' % fn.key)
+        if isinstance(e, ast.Call):
+            e.args = [self.hoist(fn, a, env, lines, pad) for a in e.args]
+            if self.is_mutating_call(fn, e) and not top:
+                c = self.fns[self.resolve_call(fn, e)]
+                if c.ret in (None, NONE):
+                    raise Unsupported('%s: value of %s used, but it returns None' % (fn.key, c.key))
+                recv = e.func.value.id
+                fn.tmp_count = getattr(fn, 'tmp_count', 0) + 1
+                tmp = 'tmp%d__' % fn.tmp_count
+                largs = [recv] + [self.expr(fn, a, env)[0] for a in e.args]
+                lines.append('%slet (%s, %s) %s %s %s' % (pad, recv, tmp, '←' if c.partial else ':=', c.lean_name, ' '.join(largs)))
+                env[tmp] = c.ret
+                return ast.Name(id=tmp, ctx=ast.Load())
+            return e
+        for field, value in ast.iter_fields(e):
+            if isinstance(value, ast.expr):
+                setattr(e, field, self.hoist(fn, value, env, lines, pad))
+            elif isinstance(value, list):
+                setattr(e, field, [self.hoist(fn, v, env, lines, pad) if isinstance(v, ast.expr) else v for v in value])
+        return e
+
     def block(self, fn, stmts, env, tail, ind):
         """Translate `stmts`; `tail` = None (block must return on every path) or a list of names whose tuple is the
         value of the block when control falls off its end.  Returns a list of lines."""
@@ -505,6 +632,41 @@ class Translator:
                 continue                                    # docstring
             if isinstance(s, ast.Pass):
                 continue
+            if isinstance(s, ast.Return) and s.value is not None and self.is_mutating_call(fn, s.value) \
+                    and self.fns[self.resolve_call(fn, s.value)].ret in (None, NONE):
+                # `return self.m(...)` where m returns None: the call, then `return None`
+                lines += self.block(fn, [ast.Expr(value=s.value), ast.Return(value=None)], env, None, ind)
+                return lines
+            if isinstance(s, ast.Return) and s.value is not None:
+                s = copy.deepcopy(s)
+                s.value = self.hoist(fn, s.value, env, lines, pad)
+            elif isinstance(s, (ast.Assign, ast.AugAssign)):
+                s = copy.deepcopy(s)
+                s.value = self.hoist(fn, s.value, env, lines, pad, top=isinstance(s, ast.Assign))
+            elif isinstance(s, ast.Expr) and isinstance(s.value, ast.Call):
+                s = copy.deepcopy(s)
+                s.value = self.hoist(fn, s.value, env, lines, pad, top=True)
+            elif isinstance(s, ast.If):
+                if self.has_mutating_call(fn, s.test):
+                    s = copy.deepcopy(s)
+                    s.test = self.hoist(fn, s.test, env, lines, pad)
+            elif isinstance(s, ast.While) and self.has_mutating_call(fn, s.test):
+                raise Unsupported('%s: state-changing call in a loop condition' % fn.key)
+            if isinstance(s, ast.Try):
+                # only: try: return {k: v, ...}[key]  except KeyError: raise E(...)
+                ok = (len(s.body) == 1 and isinstance(s.body[0], ast.Return) and isinstance(s.body[0].value, ast.Subscript)
+                      and isinstance(s.body[0].value.value, ast.Dict) and len(s.handlers) == 1 and not s.orelse and not s.finalbody
+                      and isinstance(s.handlers[0].type, ast.Name) and s.handlers[0].type.id == 'KeyError'
+                      and len(s.handlers[0].body) == 1 and isinstance(s.handlers[0].body[0], ast.Raise))
+                if not ok:
+                    raise Unsupported('%s: try statement (only `try: return {...}[k] except KeyError: raise E` is supported)' % fn.key)
+                d = s.body[0].value.value
+                key_e = s.body[0].value.slice
+                chain = list(s.handlers[0].body)
+                for kk, vv in reversed(list(zip(d.keys, d.values))):
+                    chain = [ast.If(test=ast.Compare(left=key_e, ops=[ast.Eq()], comparators=[kk]), body=[ast.Return(value=vv)], orelse=chain)]
+                lines += self.block(fn, chain, env, None, ind)
+                return lines
             if isinstance(s, ast.Return):
                 if s.value is None:
                     lines.append(pad + self.ret_wrap(fn, None, env))
@@ -649,7 +811,7 @@ class Translator:
                     return lines
                 if contains_return(s.body) or contains_return(s.orelse):
                     raise Unsupported('%s: return nested in a branch that may also fall through' % fn.key)
-                mod = [n for n in assigned_names(s.body + s.orelse)]
+                mod = [n for n in self.mods(fn, s.body + s.orelse)]
                 new = [n for n in mod if n not in env]
                 if new:
                     # variables first bound inside the branches: allowed only if bound on both paths with one type
@@ -670,10 +832,41 @@ class Translator:
                 lines += self.sub(fn, s.orelse, {k: v for k, v in env.items() if k not in new}, mod, ind + 2)
                 lines[-1] += ')'
                 continue
+            if isinstance(s, ast.While) and isinstance(s.test, ast.Constant) and s.test.value is True:
+                last = s.body[-1] if s.body else None
+                ok = (not s.orelse and isinstance(last, ast.If) and not last.orelse and len(last.body) == 1 and isinstance(last.body[0], ast.Break)
+                      and not contains_return(s.body)
+                      and not any(isinstance(n, (ast.Break, ast.Continue)) for b in s.body[:-1] for n in ast.walk(b)))
+                if not ok:
+                    raise Unsupported('%s: `while True` must end with `if c: break` and contain no other break / continue / return' % fn.key)
+                body = s.body[:-1]
+                mod = [n for n in self.mods(fn, body) if n in env]
+                params = [n for n in env]
+                fn.loop_count = getattr(fn, 'loop_count', 0) + 1
+                lname = '%s_loop%d' % (fn.lean_name, fn.loop_count)
+                sig = ' → '.join(['Nat'] + ['(%s)' % lean_type(env[p_], self.structs) for p_ in params])
+                rt = self.tup_type(mod, env)
+                L = ['def %s : %s → %s' % (lname, sig, ('Except String (%s)' % rt) if P else rt)]
+                L.append('  | 0, %s => %s' % (', '.join(params), ('pure ' if P else '') + self.tup(mod)))
+                L.append('  | fuel + 1, %s =>%s' % (', '.join(params), ' do' if P else ''))
+                benv = dict(env)
+                blines = self.block(fn, body, benv, '@loop', 2)
+                # the exit test is evaluated in the environment after the body
+                benv2 = self.env_after(fn, body, env)
+                tlines = []
+                test = self.hoist(fn, copy.deepcopy(last.test), benv2, tlines, '    ')
+                cond = self.as_bool(*self.expr(fn, test, benv2))
+                L += blines + tlines
+                L.append('    if %s then %s' % (cond, ('pure ' if P else '') + self.tup(mod)))
+                L.append('    else %s fuel %s' % (lname, ' '.join(params)))
+                self.out.append('\n'.join(L) + '\n')
+                fuel = fn.cfg.get('fuel', {}).get(str(fn.loop_count)) or self.generic_fuel(params, env)
+                lines.append('%slet %s %s %s (%s) %s' % (pad, self.tup(mod), '←' if P else ':=', lname, fuel, ' '.join(params)))
+                continue
             if isinstance(s, ast.While):
                 if s.orelse or contains_return(s.body) or any(isinstance(n, (ast.Break, ast.Continue)) for b in s.body for n in ast.walk(b)):
                     raise Unsupported('%s: while with else / return / break / continue' % fn.key)
-                mod = [n for n in assigned_names(s.body) if n in env]
+                mod = [n for n in self.mods(fn, s.body) if n in env]
                 params = [n for n in env]
                 fn.loop_count = getattr(fn, 'loop_count', 0) + 1
                 lname = '%s_loop%d' % (fn.lean_name, fn.loop_count)
@@ -690,15 +883,7 @@ class Translator:
                 L.append('      %s fuel %s' % (lname, ' '.join(params)))
                 L.append('    else %s' % (('pure ' if P else '') + self.tup(mod)))
                 self.out.append('\n'.join(L) + '\n')
-                fuel = fn.cfg.get('fuel', {}).get(str(fn.loop_count))
-                if fuel is None:
-                    terms = []
-                    for p in params:
-                        if env[p] == INT:
-                            terms.append('Py.fuelOfInt %s' % p)
-                        elif env[p] == BYTES or (isinstance(env[p], tuple) and env[p][0] == 'list'):
-                            terms.append('Py.fuelOfList %s' % p)
-                    fuel = ' + '.join(['1'] + terms)
+                fuel = fn.cfg.get('fuel', {}).get(str(fn.loop_count)) or self.generic_fuel(params, env)
                 arrow = '←' if P else ':='
                 lines.append('%slet %s %s %s (%s) %s' % (pad, self.tup(mod), arrow, lname, fuel, ' '.join(params)))
                 continue
@@ -737,7 +922,7 @@ class Translator:
                         raise Unsupported('for-target unpacking of %r' % (et,))
                 else:
                     raise Unsupported('for target')
-                mod = [n for n in assigned_names(s.body) if n in env]
+                mod = [n for n in self.mods(fn, s.body) if n in env]
                 if not mod:
                     continue
                 arrow = '←' if P else ':='
@@ -782,8 +967,14 @@ class Translator:
         try:
             for s in stmts:
                 if isinstance(s, ast.Assign) and len(s.targets) == 1 and isinstance(s.targets[0], ast.Name):
+                    k = self.resolve_call(fn, s.value) if isinstance(s.value, ast.Call) else None
+                    if k and self.fns[k].ret is not None:
+                        e[s.targets[0].id] = self.fns[k].ret
+                        continue
                     try:
-                        e[s.targets[0].id] = self.expr(fn, s.value, e)[1]
+                        scratch = []
+                        v = self.hoist(fn, copy.deepcopy(s.value), e, scratch, '')
+                        e[s.targets[0].id] = self.expr(fn, v, e)[1]
                     except Unsupported:
                         pass
                 elif isinstance(s, ast.If):
@@ -798,7 +989,6 @@ class Translator:
         return e
 
     def load_of(self, t):
-        import copy
         t2 = copy.deepcopy(t)
         for n in ast.walk(t2):
             if hasattr(n, 'ctx'):
@@ -914,6 +1104,42 @@ TARGETS = {
         'functions': {
             'encode_tag': {'params': {'number': 'int', 'flags': 'int'}},
         },
+        'classes': {
+            'Encoder': {
+                'fields': {'number_of_bits': 'int', 'value': 'int'},
+                'methods': {
+                    'number_of_bytes': {},
+                    'align': {},
+                    'append_bit': {'params': {'bit': 'int'}},
+                    'append_non_negative_binary_integer': {'params': {'value': 'int', 'number_of_bits': 'int'}},
+                    'append_bits': {'params': {'data': 'bytes', 'number_of_bits': 'int'}},
+                    'append_u8': {'params': {'value': 'int'}},
+                    'append_bytes': {'params': {'data': 'bytes'}},
+                    'append_length_determinant': {'params': {'value': 'int'}},
+                    'append_integer': {'params': {'value': 'int'}},
+                    'append_unsigned_integer': {'params': {'value': 'int'}},
+                    '__iadd__': {'params': {'other': 'struct:oer.Encoder'}},
+                },
+            },
+            'Decoder': {
+                'fields': {'number_of_bits': 'int', 'total_number_of_bits': 'int', 'value': 'int'},
+                'methods': {
+                    'align': {},
+                    'number_of_read_bits': {},
+                    'skip_bits': {'params': {'number_of_bits': 'int'}},
+                    'peek_bit': {},
+                    'read_bit': {},
+                    'read_bits': {'params': {'number_of_bits': 'int'}},
+                    'read_byte': {},
+                    'read_bytes': {'params': {'number_of_bytes': 'int'}},
+                    'read_non_negative_binary_integer': {'params': {'number_of_bits': 'int'}},
+                    'read_length_determinant': {},
+                    'read_integer': {},
+                    'read_unsigned_integer': {},
+                    'read_tag': {},
+                },
+            },
+        },
     },
     'per': {
         'file': 'asn1tools/codecs/per.py',
@@ -940,6 +1166,24 @@ TARGETS = {
                     'append_constrained_whole_number': {'params': {'value': 'int', 'minimum': 'int', 'maximum': 'int', 'number_of_bits': 'int'}},
                     'append_unconstrained_whole_number': {'params': {'value': 'int'}},
                     '__iadd__': {'params': {'other': 'struct:per.Encoder'}},
+                },
+            },
+            'Decoder': {
+                'fields': {'number_of_bits': 'int', 'total_number_of_bits': 'int', 'value': 'str'},
+                'methods': {
+                    'align_always': {},
+                    'align': {},
+                    'number_of_read_bits': {},
+                    'skip_bits': {'params': {'number_of_bits': 'int'}},
+                    'read_bit': {},
+                    'read_bits': {'params': {'number_of_bits': 'int'}},
+                    'read_bytes': {'params': {'number_of_bytes': 'int'}},
+                    'read_non_negative_binary_integer': {'params': {'number_of_bits': 'int'}},
+                    'read_length_determinant': {},
+                    'read_normally_small_non_negative_whole_number': {},
+                    'read_normally_small_length': {},
+                    'read_constrained_whole_number': {'params': {'minimum': 'int', 'maximum': 'int', 'number_of_bits': 'int'}},
+                    'read_unconstrained_whole_number': {},
                 },
             },
         },
